@@ -69,6 +69,8 @@ TrieJ(t) == [a \in Accts |-> IF t[a] = Absent THEN [absent |-> TRUE] ELSE DataJ(
 Log(r) == /\ nops' = IF MaxOps = 0 THEN 0 ELSE nops + 1
           /\ hist' = IF HistOn
                      THEN Append(hist, r @@ [view |-> [a \in Accts |-> DataJ(ViewAll'[a])],
+                                            \* accounts that have a mutable account object (read through it as well)
+                                            cin |-> [a \in Accts |-> cache'[a].in],
                                             sn |-> [i \in 1..MaxSnaps |-> TrieJ(snaps'[i].trie)]])
                      ELSE hist
 Rec(op, a, k, v, s, res) == [op |-> op, a |-> a, k |-> k, v |-> v, s |-> s, res |-> res]
